@@ -40,7 +40,9 @@ theorem angle_assign_underlying [Add α] [Sub α] [Mul α] [Div α] [FRem α] (a
     Angle.addAssign a b = Angle.add a b ∧ Angle.subAssign a b = Angle.sub a b ∧
     Angle.remAssign a b = Angle.rem a b ∧ Angle.mulAssignS a s = Angle.mulS a s ∧
     Angle.divAssignS a s = Angle.divS a s := ⟨rfl, rfl, rfl, rfl, rfl⟩
-/-- `Sum` (by value and over references): the left fold with `+` from `zero()`, any length -/
+/-- `Sum` (by value and over references): the model's `sumList` IS the left fold with `+` from `zero()` (first two conjuncts:
+`rfl` on the model's definition, so "any length" is by construction; the traced kernels cover length 3 only), and the
+by-reference fold equals the by-value one on the dereferenced list -/
 theorem angle_sum_underlying [Add α] [OfNat α 0] (l : List α) :
     Rad.sumList l = l.foldl (· + ·) 0 ∧ Deg.sumList l = l.foldl (· + ·) 0 ∧
     (∀ {ρ : Type} (deref : ρ → α) (it : List ρ), Angle.sumRefs deref it = Angle.sum (it.map deref)) := by
